@@ -334,10 +334,11 @@ def sweeps(tier, rng):
             g.note = rng.choice([None, "a note", "line1\nline2"]) if rng.chance(50) else None
             g.lib = rng.choice([{"k": [1, 2.5, "x", True]}, {"": 1, "k": {"": "e", "z": []}}]) if rng.chance(30) else {}
             g.anchors = [dict(x=rng.randint(-50, 50), y=rng.randint(-50, 50), name="top")] if rng.chance(40) else []
-            g.guidelines = [dict(x=10, y=20, angle=45.5, name="g")] if rng.chance(20) else []
+            glif_v = 1 if rng.chance(30) else 2       # GLIF 1 has no guidelines / identifiers; anchors travel as one-point contours and come back
+            g.guidelines = [dict(x=10, y=20, angle=45.5, name="g")] if (rng.chance(20) and glif_v == 2) else []
             rec = RecordingPointPen()
             for c in range(rng.below(3)):
-                rec.beginPath(identifier=("c%d_%d" % (i, c)) if rng.chance(30) else None)
+                rec.beginPath(identifier=("c%d_%d" % (i, c)) if (rng.chance(30) and glif_v == 2) else None)
                 npts = rng.randint(1, 6); closed = rng.chance(70)
                 types = []
                 for j in range(npts):
@@ -356,7 +357,7 @@ def sweeps(tier, rng):
             if rng.chance(30): rec.addComponent("base", (1, 0, 0, rng.choice([1, 0.5]), rng.randint(-10, 10), 0))
             name = "".join(c for c in gen_name(rng) if ord(c) >= 32 and ord(c) != 127) or "a"
             try:
-                text = glifLib.writeGlyphToString(name, g, rec.replay, formatVersion=2, validate=False)
+                text = glifLib.writeGlyphToString(name, g, rec.replay, formatVersion=glif_v, validate=False)
                 g2 = G(); rec2 = RecordingPointPen()
                 glifLib.readGlyphFromString(text, g2, rec2, validate=False)
                 bad = None
